@@ -17,7 +17,7 @@ rounds 9 and 10; the checks of the target property's family (flow C01–C05, C10
 C12, C17, C20 / store C13–C16) for the other rounds; and every change that no check of its family caught in that run
 (or whose run was disturbed by a rebuild of the harness) run again on its own against all 20 checks on the final
 state of the harness ({nall} changes have an all-20 record in total). Rounds 1–10 were run on the state of the checks
-after round 10 (`selftest/results/`); rounds 11–17 were produced and closed while or after that run was under way and
+after round 10 (`selftest/results/`); rounds 11–18 were produced and closed while or after that run was under way and
 were run on the state of the checks at the end of their own round. Nothing was removed from a check afterwards; the
 quick regressions on the real tree after every round (seeds 1–3, seeds 1–5 at the end) and the thorough runs of §12
 are the evidence that nothing fires there. "target" is the property the change was written against; a check other
